@@ -38,6 +38,18 @@ CHECKS = [
          technique='TLA+ I-layer EditRules.tla (label arithmetic, three-way keep condition, terminal-set filter) model-checked by TLC against the P-layer that judges structures by the true lengths of the strings their labels stand for; real edit_rules.py subprocess runs + real guesser on the result validated by TrEdit (survivors identical and in order, only failing removed, kept pass, guess lengths, other files / --copy source untouched)',
          text='The filter logic is exhaustively checked on the model for all min/max pairs, terminal sets and structure lists in bound (with the open finding C20-F12 as a named exclusion that must fail without it); the real tool is run on generated rulesets with random filter combinations.',
          note='Regex semantics are Python re (booleans in the trace); digests compared in Python; the fate of the Markov structure under a length filter is treated as unspecified.'),
+    dict(pid='C10', cat=MC, design='5/C10',
+         technique='TLA+ Omen.tla (Level, pruned LevelSet, declarative LevelSetD) model-checked by TLC over every small OMEN model (two definitions agree); the model space is exported and each model written as real IP/CP/LN.level files; every level drained from the real MarkovCracker under several cache histories is validated by TLC against TrOmen (each string once, only strings of the level, none missing, exhaustion reported)',
+         text='TLC is the independent enumerator: for whatever model the real generator was given (model-checked space, random models with n up to 5 incl. all-level-10 boundaries, trainer-produced models) the emitted list must equal LevelSet exactly, for fresh/shared/shuffled/repeated cache histories.',
+         note='The model is read back from the rule files by the harness neutral reader. An implementation-shaped model of the backtracking enumerator (cursors, memo) is not written; the generator is bound by trace validation only.'),
+    dict(pid='C18', cat=MC, design='5/C18',
+         technique='TLA+ transcription of calc_omen_keyspace/_rec_calc_keyspace (MC_Omen.tla CalcKeyspace, constants FixKeyLen/FixKeyZero) model-checked against Cardinality(LevelSet) for every small model; the real calc_omen_keyspace is called on every exported model and real trainings are compared three ways (omen_keyspace.txt, generator count, TLC cardinality) by TrOmen',
+         text='Keyspace exactness is decided on the model for all small models and on the real function for the same models; trained rulesets dominated by n-gram-size passwords or a single length are checked end to end.',
+         note='Saved probability identity (count/N)/keyspace compared in Python with 1e-12. The max_keyspace cut-off (1e10) is not reachable by a recorded run and is not claimed.'),
+    dict(pid='C11', cat='exploration', design='5/C11',
+         technique='TLC evaluates Omen!Level (single TLA+ definition) on the level tables exported from the trainer memory and compares it with the levels reported by the real trainer third pass, the real OmenScorer and the real Markov generator for every candidate string (TrOmen clauses C11_*), plus omen_pws_per_level against the tally of Level',
+         text='Agreement of three implementations with one TLA+ definition on real trainings (several lists incl. rare initial n-grams, n-gram sizes 2-5, alphabet sizes) and candidate strings incl. out-of-alphabet characters and boundary lengths.',
+         note='Exploration-grade: inputs are sampled trainings. The smoothing logarithm is not modelled (level tables are data). UTF-8 rulesets (other encodings are C07).'),
 ]
 
 NOT_YET = {
